@@ -215,6 +215,16 @@ Section LoopFacts.
       all: cbn [eS eE eV]; reflexivity.
   Qed.
 
+  Lemma istep_hz c st e a b v prev :
+    so_hz (istep St VS mk1 app spare c st e a b v prev) =
+    spare (eV e) || match prev with Some p => eE p + 1 =? c_curS e a b | None => false end.
+  Proof.
+    rewrite istep_nf.
+    repeat match goal with
+           | |- context [let '(_, _) := ?x in _] => destruct x
+           end; reflexivity.
+  Qed.
+
   Lemma iloop_keys c : forall es st a b v prev r' pd pv st' hz,
     iloop St VS mk1 app spare c st es a b v prev = (r', pd, pv, st', hz) -> map eE r' = map eE es.
   Proof.
@@ -451,13 +461,6 @@ Proof.
 Qed.
 
 (* ------------------------------------------------------------------ the invariant of the repaired Insert *)
-Definition naive (ops : list (Z * Z * nat)) (q : Z) : list nat :=
-  flat_map (fun op : Z * Z * nat => let '(a, b, v) := op in if (a <=? q) && (q <=? b) then [v] else []) ops.
-
-Definition disjoint_b (a b : Z) (op : Z * Z * nat) : bool := let '(a', b', _) := op in (b' <? a) || (b <? a').
-
-Definition valid_op (op : Z * Z * nat) : Prop := let '(a, b, _) := op in a <= b.
-
 Definition Inv (t : list PE) (ops : list (Z * Z * nat)) : Prop :=
   (exists lo, chain_from lo t) /\ (forall q, lk t q = naive ops q) /\ Forall valid_op ops.
 
@@ -666,3 +669,220 @@ Proof.
     rewrite app_assoc. rewrite firstn_app, firstn_all, Nat.sub_diag. cbn [firstn]. rewrite app_nil_r. reflexivity.
 Qed.
 
+
+Definition absE (h : heap) (e : entry slice) : PE := mkE (eS e) (eE e) (sread h (eV e)).
+Definition wfE (h : heap) (e : entry slice) : Prop := swf h (eV e).
+Definition gstep := istep heap slice hsingle happend hspare.
+Definition gloop := iloop heap slice hsingle happend hspare.
+
+Lemma absE_ext h h' e : hext h h' -> wfE h e -> wfE h' e /\ absE h' e = absE h e.
+Proof.
+  intros Hx Hw. destruct (swf_ext h h' (eV e) Hx Hw) as [H1 H2]. split; [exact H1|].
+  unfold absE. rewrite H2. reflexivity.
+Qed.
+
+Ltac push_ext :=
+  repeat match goal with
+         | X : hext ?h1 ?h2, W : swf ?h1 ?s |- _ =>
+           lazymatch goal with
+           | _ : swf h2 s |- _ => fail
+           | _ => destruct (swf_ext h1 h2 s X W) as [? ?]
+           end
+         end.
+
+Ltac alloc_single :=
+  match goal with
+  | |- context [hsingle ?h ?v] =>
+    let h' := fresh "hs" in let s := fresh "ss" in let E := fresh "Es" in
+    destruct (hsingle h v) as [h' s] eqn:E; apply hsingle_ok in E; destruct E as [? [? ?]]
+  end.
+
+Ltac alloc_app Hsafe :=
+  match goal with
+  | |- context [happend ?c ?h ?s ?v] =>
+    let h' := fresh "ha" in let s' := fresh "sa" in let E := fresh "Ea" in
+    destruct (happend c h s v) as [h' s'] eqn:E;
+    apply happend_ok in E; [destruct E as [? [? ?]]|push_ext; assumption|first [left; reflexivity|exact Hsafe]]
+  end.
+
+Ltac sread_rw := repeat match goal with H : sread ?h ?s = _ |- context [sread ?h ?s] => rewrite H end.
+Ltac hext_solve := repeat (first [eassumption | apply hext_refl | eapply hext_trans; [eassumption|]]).
+
+Lemma gstep_sim c h e a b v prev :
+  wfE h e -> fix_clip c = true \/ hspare (eV e) = false ->
+  let o := gstep c h e a b v prev in
+  let po := pstep c tt (absE h e) a b v (option_map (absE h) prev) in
+  hext h (so_st o) /\ wfE (so_st o) (so_tree o) /\ Forall (wfE (so_st o)) (so_pend o) /\ wfE (so_st o) (so_cur o)
+  /\ absE (so_st o) (so_tree o) = so_tree po /\ map (absE (so_st o)) (so_pend o) = so_pend po
+  /\ absE (so_st o) (so_cur o) = so_cur po
+  /\ so_hz o = hspare (eV e) || so_hz po.
+Proof.
+  intros Hw Hsafe. unfold gstep, pstep. rewrite !istep_nf.
+  unfold pmk1, papp, pspare, wfE in *.
+  change (c_se (absE h e) b) with (c_se e b). change (c_ss (absE h e) a b) with (c_ss e a b).
+  change (c_curS (absE h e) a b) with (c_curS e a b). change (c_curE (absE h e) b) with (c_curE e b).
+  change (eS (absE h e)) with (eS e). change (eE (absE h e)) with (eE e).
+  change (eV (absE h e)) with (sread h (eV e)).
+  destruct prev as [p|]; cbn [option_map].
+  - change (c_gap c (absE h e) a b (Some (absE h p))) with (c_gap c e a b (Some p)).
+    destruct (c_se e b); destruct (c_ss e a b); destruct (c_gap c e a b (Some p));
+      repeat (first [alloc_single | alloc_app Hsafe]); push_ext;
+      cbn [so_st so_tree so_pend so_cur so_hz app map eS eE eV absE orb];
+      (split; [hext_solve|]); unfold absE; cbn [eS eE eV]; sread_rw;
+      repeat match goal with |- _ /\ _ => split end; try assumption; try reflexivity;
+      repeat (first [apply Forall_nil | apply Forall_cons; [cbn [eV]; assumption|]]).
+  - destruct (a <? eS e); destruct (c_se e b); destruct (c_ss e a b);
+      repeat (first [alloc_single | alloc_app Hsafe]); push_ext;
+      cbn [so_st so_tree so_pend so_cur so_hz app map eS eE eV absE orb c_gap];
+      (split; [hext_solve|]); unfold absE; cbn [eS eE eV]; sread_rw;
+      repeat match goal with |- _ /\ _ => split end; try assumption; try reflexivity;
+      repeat (first [apply Forall_nil | apply Forall_cons; [cbn [eV]; assumption|]]).
+Qed.
+
+Lemma map_absE_ext h h' l : hext h h' -> Forall (wfE h) l -> Forall (wfE h') l /\ map (absE h') l = map (absE h) l.
+Proof.
+  intros Hx Hall. induction Hall as [|e r He Hr IH]; [split; [constructor|reflexivity]|].
+  destruct IH as [IH1 IH2]. destruct (absE_ext h h' e Hx He) as [H1 H2].
+  split; [constructor; assumption|]. cbn [map]. rewrite H2, IH2. reflexivity.
+Qed.
+
+Definition wfO (h : heap) (o : option (entry slice)) : Prop := match o with Some p => wfE h p | None => True end.
+
+Lemma optmap_absE_ext h h' o : hext h h' -> wfO h o -> wfO h' o /\ option_map (absE h') o = option_map (absE h) o.
+Proof.
+  intros Hx Hw. destruct o as [p|]; [|split; [exact I|reflexivity]].
+  destruct (absE_ext h h' p Hx Hw) as [H1 H2]. split; [exact H1|]. cbn [option_map]. rewrite H2. reflexivity.
+Qed.
+
+Lemma gloop_sim c a b v : forall es h prev r' pd pv h' hz,
+  Forall (wfE h) es -> wfO h prev ->
+  gloop c h es a b v prev = (r', pd, pv, h', hz) ->
+  fix_clip c = true \/ hz = false ->
+  exists phz,
+    ploop c tt (map (absE h) es) a b v (option_map (absE h) prev)
+    = (map (absE h') r', map (absE h') pd, option_map (absE h') pv, tt, phz)
+    /\ hext h h' /\ Forall (wfE h') r' /\ Forall (wfE h') pd /\ wfO h' pv /\ (hz = false -> phz = false).
+Proof.
+  induction es as [|e r IH]; intros h prev r' pd pv h' hz Hall Hprev Hl Hsafe.
+  - unfold gloop in Hl. cbn [iloop] in Hl. injection Hl as <- <- <- <- <-.
+    exists false. cbn [map ploop iloop]. repeat split; try constructor; try assumption; try apply hext_refl.
+  - unfold gloop in Hl. cbn [iloop] in Hl. unfold ploop. cbn [map iloop].
+    change (eS (absE h e)) with (eS e).
+    inversion Hall as [|? ? He Hr]; subst.
+    destruct (b <? eS e).
+    + injection Hl as <- <- <- <- <-. exists false. cbn [map].
+      repeat split; try constructor; try assumption; try apply hext_refl.
+    + fold (gstep c h e a b v prev) in Hl. fold (pstep c tt (absE h e) a b v (option_map (absE h) prev)).
+      fold gloop in Hl. fold ploop.
+      set (o := gstep c h e a b v prev) in *.
+      set (po := pstep c tt (absE h e) a b v (option_map (absE h) prev)).
+      destruct (gloop c (so_st o) r a b v (Some (so_cur o))) as [[[[r2 pd2] pv2] h2] hz2] eqn:Hrec.
+      injection Hl as <- <- <- <- <-.
+      assert (Hsafe1 : fix_clip c = true \/ hspare (eV e) = false).
+      { destruct Hsafe as [Hs|Hs]; [left; exact Hs|right]. apply orb_false_iff in Hs. destruct Hs as [Hs _].
+        unfold o, gstep in Hs. rewrite istep_hz in Hs. apply orb_false_iff in Hs. apply Hs. }
+      assert (Hsafe2 : fix_clip c = true \/ hz2 = false).
+      { destruct Hsafe as [Hs|Hs]; [left; exact Hs|right]. apply orb_false_iff in Hs. apply Hs. }
+      destruct (gstep_sim c h e a b v prev He Hsafe1) as [X1 [Wt [Wp [Wc [At [Ap [Ac Ahz]]]]]]].
+      fold o in X1, Wt, Wp, Wc, At, Ap, Ac, Ahz. fold po in At, Ap, Ac, Ahz.
+      destruct (map_absE_ext h (so_st o) r X1 Hr) as [Hr1 Hm1].
+      destruct (IH (so_st o) (Some (so_cur o)) r2 pd2 pv2 h2 hz2 Hr1 Wc Hrec Hsafe2)
+        as [phz [Hp [X2 [Wr2 [Wpd2 [Wpv2 Hhz2]]]]]].
+      assert (Hst : so_st po = tt) by (destruct (so_st po); reflexivity). rewrite Hst.
+      cbn [option_map] in Hp. rewrite Hm1, Ac in Hp. rewrite Hp.
+      destruct (absE_ext (so_st o) h2 (so_tree o) X2 Wt) as [Wt2 At2].
+      destruct (map_absE_ext (so_st o) h2 (so_pend o) X2 Wp) as [Wp2 Ap2].
+      exists (so_hz po || phz). split; [|split; [|split; [|split; [|split]]]].
+      * cbn [map]. rewrite map_app, At2, Ap2, At, Ap. reflexivity.
+      * eapply hext_trans; eassumption.
+      * constructor; assumption.
+      * apply Forall_app. split; assumption.
+      * exact Wpv2.
+      * intros Hz. apply orb_false_iff in Hz. destruct Hz as [Hz1 Hz2]. rewrite (Hhz2 Hz2).
+        rewrite Ahz in Hz1. apply orb_false_iff in Hz1. destruct Hz1 as [_ Hz1]. rewrite Hz1. reflexivity.
+Qed.
+
+Lemma seek_split_map {V W} (f : entry V -> entry W) (Hf : forall e, eE (f e) = eE e) t k :
+  seek_split (map f t) k = (map f (fst (seek_split t k)), map f (snd (seek_split t k))).
+Proof.
+  induction t as [|x r IH]; cbn [map seek_split]; [reflexivity|]. rewrite Hf.
+  destruct (eE x <? k); [|reflexivity]. rewrite IH. destruct (seek_split r k) as [b0 a0]. reflexivity.
+Qed.
+
+Lemma tset_map {V W} (f : entry V -> entry W) (Hf : forall e, eE (f e) = eE e) t e :
+  tset (map f t) (f e) = map f (tset t e).
+Proof.
+  induction t as [|x r IH]; cbn [map tset]; [reflexivity|]. rewrite !Hf.
+  destruct (eE e <? eE x); [reflexivity|]. destruct (eE e =? eE x); [reflexivity|]. rewrite IH. reflexivity.
+Qed.
+
+Lemma fold_tset_map {V W} (f : entry V -> entry W) (Hf : forall e, eE (f e) = eE e) pend : forall t,
+  fold_left tset (map f pend) (map f t) = map f (fold_left tset pend t).
+Proof.
+  induction pend as [|e r IH]; intros t; cbn [map fold_left]; [reflexivity|]. rewrite tset_map by exact Hf. apply IH.
+Qed.
+
+Lemma tset_Forall {V} (P : entry V -> Prop) t e : Forall P t -> P e -> Forall P (tset t e).
+Proof.
+  intros Ht He. rewrite Forall_forall in *. intros x Hx. apply tset_In_1 in Hx. destruct Hx as [->|Hx]; [exact He|apply Ht, Hx].
+Qed.
+
+Lemma fold_tset_Forall {V} (P : entry V -> Prop) pend : forall t, Forall P t -> Forall P pend -> Forall P (fold_left tset pend t).
+Proof.
+  induction pend as [|e r IH]; intros t Ht Hp; cbn [fold_left]; [exact Ht|].
+  inversion Hp; subst. apply IH; [apply tset_Forall; assumption|assumption].
+Qed.
+
+Lemma absE_key h e : eE (absE h e) = eE e. Proof. reflexivity. Qed.
+
+Lemma ginsert_sim c t h a b v t' h' d hz :
+  Forall (wfE h) t -> go_insert c t h a b v = IOk t' h' d hz -> fix_clip c = true \/ hz = false ->
+  exists phz, pinsert c (map (absE h) t) tt a b v = IOk (map (absE h') t') tt d phz
+              /\ hext h h' /\ Forall (wfE h') t' /\ (hz = false -> phz = false).
+Proof.
+  intros Hall Hins Hsafe. unfold go_insert, iinsert in Hins. unfold pinsert, iinsert.
+  destruct (b <? a); [discriminate|].
+  rewrite (seek_split_map (absE h) (absE_key h)).
+  pose proof (seek_split_app t a) as Happ.
+  destruct (seek_split t a) as [bef rest]. cbn [fst snd] in *.
+  assert (Hbr : Forall (wfE h) bef /\ Forall (wfE h) rest) by (apply Forall_app; rewrite Happ; exact Hall).
+  destruct Hbr as [Hbef Hrest].
+  fold (gloop c h rest a b v None) in Hins. fold (ploop c tt (map (absE h) rest) a b v None).
+  destruct (gloop c h rest a b v None) as [[[[r' pd] pv] h1] hz1] eqn:Hl.
+  assert (Hz1 : hz = hz1).
+  { destruct pv as [p|]; [destruct (eE p <? b); [destruct (hsingle h1 v)|]|destruct (hsingle h1 v)]; injection Hins; intros; congruence. }
+  subst hz1.
+  destruct (gloop_sim c a b v rest h None r' pd pv h1 hz Hrest I Hl Hsafe) as [phz [Hp [X1 [Wr [Wpd [Wpv Hhz]]]]]].
+  cbn [option_map] in Hp. rewrite Hp.
+  destruct (map_absE_ext h h1 bef X1 Hbef) as [Wbef Abef].
+  destruct pv as [p|]; cbn [option_map].
+  - change (eE (absE h1 p)) with (eE p). unfold pmk1.
+    destruct (eE p <? b).
+    + destruct (hsingle h1 v) as [h2 s] eqn:Es. apply hsingle_ok in Es. destruct Es as [X2 [Ws Rs]].
+      injection Hins as <- <- <-.
+      destruct (map_absE_ext h1 h2 bef X2 Wbef) as [Wbef2 Abef2].
+      destruct (map_absE_ext h1 h2 r' X2 Wr) as [Wr2 Ar2].
+      destruct (map_absE_ext h1 h2 pd X2 Wpd) as [Wpd2 Apd2].
+      exists phz. split; [|split; [eapply hext_trans; eassumption|split; [|exact Hhz]]].
+      * rewrite <- Abef, <- Abef2, <- Ar2, <- Apd2.
+        replace (map (absE h2) pd ++ [{| eS := eE p + 1; eE := b; eV := [v] |}])
+          with (map (absE h2) (pd ++ [mkE (eE p + 1) b s])) by (rewrite map_app; cbn [map]; unfold absE at 2; cbn [eS eE eV]; rewrite Rs; reflexivity).
+        rewrite <- map_app. rewrite (fold_tset_map (absE h2) (absE_key h2)). reflexivity.
+      * apply fold_tset_Forall; [apply Forall_app; split; assumption|].
+        apply Forall_app. split; [assumption|]. constructor; [exact Ws|constructor].
+    + injection Hins as <- <- <-.
+      exists phz. split; [|split; [exact X1|split; [|exact Hhz]]].
+      * rewrite <- Abef. rewrite <- map_app. rewrite (fold_tset_map (absE h1) (absE_key h1)). reflexivity.
+      * apply fold_tset_Forall; [apply Forall_app; split; assumption|assumption].
+  - unfold pmk1. destruct (hsingle h1 v) as [h2 s] eqn:Es. apply hsingle_ok in Es. destruct Es as [X2 [Ws Rs]].
+    injection Hins as <- <- <-.
+    destruct (map_absE_ext h1 h2 bef X2 Wbef) as [Wbef2 Abef2].
+    destruct (map_absE_ext h1 h2 r' X2 Wr) as [Wr2 Ar2].
+    destruct (map_absE_ext h1 h2 pd X2 Wpd) as [Wpd2 Apd2].
+    exists phz. split; [|split; [eapply hext_trans; eassumption|split; [|exact Hhz]]].
+    * rewrite <- Abef, <- Abef2, <- Ar2, <- Apd2. rewrite <- map_app.
+      rewrite (fold_tset_map (absE h2) (absE_key h2)).
+      replace {| eS := a; eE := b; eV := [v] |} with (absE h2 (mkE a b s)) by (unfold absE; cbn [eS eE eV]; rewrite Rs; reflexivity).
+      rewrite (tset_map (absE h2) (absE_key h2)). reflexivity.
+    * apply tset_Forall; [|exact Ws]. apply fold_tset_Forall; [apply Forall_app; split; assumption|assumption].
+Qed.
